@@ -117,8 +117,11 @@ class NumericData(Data, ABC):
             values = np.ravel(values)
             warn("Input 'values' converted to a 1D array.")
 
-        # change nan values to nan_value
-        values[np.isnan(values)] = self.nan_value
+        # change nan values to nan_value (on a copy: the array may belong to the caller,
+        # or be the cached values of another data)
+        if np.any(np.isnan(values)):
+            values = values.copy()
+            values[np.isnan(values)] = self.nan_value
 
         # check the length of the values
         values = self.format_length(values)
